@@ -450,3 +450,13 @@ CORPUS += [
     V("C19", "jssp-file-list-in-a-default-argument", _JG9, "    def list_files(path):\n        files = [", "    def list_files(path, files=[]):\n        files += [", "C19.k"),
     V("C19", "fjsp-pad-width-from-the-zero-based-index", _FPP, "    width = max(4, len(str(len(instances))))", "    width = max(4, len(str(len(instances) - 1)))", "C19.i"),
 ]
+
+# ---- session after round 10: survivors of the env mutation sweep (tools/mutation_sweep.py --scope env)
+CORPUS += [
+    V("C06", "cvrp-checker-clamp-direction", _CV, "            used_cap[used_cap < 0] = 0\n", "            used_cap[used_cap > 0] = 0\n", "C06.e"),
+    V("C06", "eq-cvrp-checker-clamp-yoda", _CV, "            used_cap[used_cap < 0] = 0\n", "            used_cap[0 > used_cap] = 0\n", None),
+    V("C01", "cvrp-step-demand-of-the-next-customer", _CV, "torch.clamp(current_node - 1, 0, n_loc - 1)", "torch.clamp(current_node + 1, 0, n_loc - 1)", "C01.o"),
+    V("C01", "cvrp-step-demand-unshifted", _CV, "torch.clamp(current_node - 1, 0, n_loc - 1)", "torch.clamp(current_node, 0, n_loc - 1)", "C01.o"),
+    V("C01", "eq-cvrp-step-demand-shift-commuted", _CV, "torch.clamp(current_node - 1, 0, n_loc - 1)", "torch.clamp(-1 + current_node, 0, n_loc - 1)", None),
+    V("C01", "pctsp-step-prize-of-the-previous-node", R + "pctsp/env.py", 'td["real_prize"], current_node', 'td["real_prize"], current_node - 1', "C01.o"),
+]
